@@ -60,13 +60,11 @@ theorem fns_nil_iff (d : Decision) : d.fns = [] ↔ d.add = false ∧ d.removeUn
 structure LInv (own : String) (s : LState) : Prop where
   memNil : s.base.mem = []
   j1 : s.base.pending = none → Waiting own s.base → 1 ≤ s.events ∨ s.sleeping = true
-  j2 : ∀ p, s.base.pending = some p → p.merge = true → s.cycMerge = true ∧ s.cycChanges = true
-  j3 : ∀ p, s.base.pending = some p → p.merge = false → s.cycMerge = true → 1 ≤ s.events
-  j4 : ∀ p, s.base.pending = some p → s.cycMerge = false →
-        p.merge = false ∧ (Fn.block ∈ p.fns → own ∉ p.view) ∧ (Fn.allow ∈ p.fns → own ∈ p.view)
-  j5 : ∀ p, s.base.pending = some p → s.cycMerge = false → s.base.rv ≠ p.rvTest → 1 ≤ s.events
-  j6 : ∀ p, s.base.pending = some p → s.cycMerge = false → p.fns = [] → s.cycDelays = false →
-        Waiting own s.base → 1 ≤ s.events
+  j3 : ∀ p, s.base.pending = some p → p.merge = false → s.cycMerge = true → s.cycChanges = true → 1 ≤ s.events
+  j4 : ∀ p, s.base.pending = some p → (Fn.block ∈ p.fns → own ∉ p.view) ∧ (Fn.allow ∈ p.fns → own ∈ p.view)
+  j5 : ∀ p, s.base.pending = some p → p.merge = false → s.base.rv ≠ p.rvTest → 1 ≤ s.events
+  j6 : ∀ p, s.base.pending = some p → p.fns = [] → s.cycDelays = false → Waiting own s.base → 1 ≤ s.events
+  j7 : ∀ p, s.base.pending = some p → (own ∈ p.view ↔ own ∈ s.base.fins)
 
 theorem linv_init {own : String} {s : LState} (h : LInit s) : LInv own s := by
   obtain ⟨hb, he, _, _, _, _⟩ := h
@@ -78,8 +76,8 @@ theorem linv_init {own : String} {s : LState} (h : LInit s) : LInv own s := by
 
 
 theorem linv_decide {own : String} {s s' : LState} {e : Env} (h : LInv own s)
-    (hg : LGuard (.base (.decide e))) (hs : lstep own s (.base (.decide e)) = some s') : LInv own s' := by
-  obtain ⟨hm, j1, j2, j3, j4, j5, j6⟩ := h
+    (hs : lstep own s (.base (.decide e)) = some s') : LInv own s' := by
+  obtain ⟨hm, j1, j3, j4, j5, j6, j7⟩ := h
   simp only [lstep] at hs
   split at hs
   · cases hs
@@ -101,7 +99,6 @@ theorem linv_decide {own : String} {s s' : LState} {e : Env} (h : LInv own s)
     · cases hb
     next hpend =>
     cases hb
-    simp only [Option.isSome_iff_ne_none, ne_eq, Decidable.not_not] at hpend
     have hfns : s.base.mem ++ (decision (inputs own s.base e)).fns = (decision (inputs own s.base e)).fns := by
       rw [hm]; rfl
     have harm := arm_bool s.base.matchDel s.base.matchDmn s.base.delDone s.base.dmnLive s.base.dmnForever s.base.marked
@@ -110,19 +107,15 @@ theorem linv_decide {own : String} {s s' : LState} {e : Env} (h : LInv own s)
     constructor
     · exact hm
     · intro hp; simp at hp
-    · intro p hp hmerge
-      simp only [Option.some.injEq] at hp; subst hp
-      simp only at hmerge
-      exact ⟨hmerge, hg hmerge⟩
-    · intro p hp hmerge hcm
+    · intro p hp hmerge hcm _
       simp only [Option.some.injEq] at hp; subst hp
       simp only at hmerge hcm
       rw [hmerge] at hcm; cases hcm
-    · intro p hp hcm
+    · intro p hp
       simp only [Option.some.injEq] at hp; subst hp
-      simp only at hcm ⊢
+      simp only
       rw [hfns]
-      refine ⟨hcm, ?_, ?_⟩
+      refine ⟨?_, ?_⟩
       · intro hbl
         rw [block_mem_fns] at hbl
         have := (harm.1 hbl).2.1
@@ -134,7 +127,7 @@ theorem linv_decide {own : String} {s s' : LState} {e : Env} (h : LInv own s)
     · intro p hp _ hrv
       simp only [Option.some.injEq] at hp; subst hp
       exact absurd rfl hrv
-    · intro p hp hcm hnil hdel hw
+    · intro p hp hnil hdel hw
       simp only [Option.some.injEq] at hp; subst hp
       simp only at hnil hdel hw
       rw [hfns, fns_nil_iff] at hnil
@@ -151,10 +144,13 @@ theorem linv_decide {own : String} {s s' : LState} {e : Env} (h : LInv own s)
       simp [hc] at hcons
       show 1 ≤ s.events - 1
       omega
+    · intro p hp
+      simp only [Option.some.injEq] at hp; subst hp
+      exact Iff.rfl
 
 theorem linv_merge {own : String} {s s' : LState} (h : LInv own s)
     (hs : lstep own s (.base .mergePatch) = some s') : LInv own s' := by
-  obtain ⟨hm, j1, j2, j3, j4, j5, j6⟩ := h
+  obtain ⟨hm, j1, j3, j4, j5, j6, j7⟩ := h
   simp only [lstep] at hs
   cases hb : step own s.base .mergePatch with
   | none => simp [hb] at hs
@@ -170,23 +166,35 @@ theorem linv_merge {own : String} {s s' : LState} (h : LInv own s)
       split at hb
       · next hmerge =>
         cases hb
-        obtain ⟨hcm, hcc⟩ := j2 p hp hmerge
+        have hev : ∀ n, 1 ≤ n → 1 ≤ n + (if s.cycChanges = true then 1 else 0) := by intro n hn; omega
         constructor
         · exact hm
         · intro hp'; simp at hp'
-        · intro p' hp' hm'; simp only [Option.some.injEq] at hp'; subst hp'; simp at hm'
-        · intro p' hp' _ _
+        · intro p' _ _ _ hcc
           show 1 ≤ s.events + (if s.cycChanges = true then 1 else 0)
+          simp only at hcc
           rw [hcc]; simp
-        · intro p' _ hcm'; simp only at hcm'; rw [hcm] at hcm'; cases hcm'
-        · intro p' _ hcm'; simp only at hcm'; rw [hcm] at hcm'; cases hcm'
-        · intro p' _ hcm'; simp only at hcm'; rw [hcm] at hcm'; cases hcm'
+        · intro p' hp'
+          simp only [Option.some.injEq] at hp'; subst hp'
+          simp only
+          obtain ⟨h4b, h4a⟩ := j4 p hp
+          have h7 := j7 p hp
+          exact ⟨fun hbl hin => h4b hbl (h7.mpr hin), fun hal => h7.mp (h4a hal)⟩
+        · intro p' hp' _ hrv
+          simp only [Option.some.injEq] at hp'; subst hp'
+          exact absurd rfl hrv
+        · intro p' hp' hnil hd hw
+          simp only [Option.some.injEq] at hp'; subst hp'
+          exact hev _ (j6 p hp hnil hd hw)
+        · intro p' hp'
+          simp only [Option.some.injEq] at hp'; subst hp'
+          exact Iff.rfl
       · cases hb
     · cases hb
 
 theorem linv_touch {own : String} {s s' : LState} (h : LInv own s)
     (hs : lstep own s .touch = some s') : LInv own s' := by
-  obtain ⟨hm, j1, j2, j3, j4, j5, j6⟩ := h
+  obtain ⟨hm, j1, j3, j4, j5, j6, j7⟩ := h
   simp only [lstep] at hs
   split at hs
   · next hc =>
@@ -224,7 +232,7 @@ def Label.isForeign : Label → Bool
 theorem foreign_step_frame {own : String} {b0 b : State} {l : Label} (hl : l.isForeign = true)
     (hs : step own b0 l = some b) :
     b.pending = b0.pending ∧ b.mem = b0.mem ∧ (b.rv = b0.rv ∨ b.rv = b0.rv + 1) ∧
-    (b.rv = b0.rv → Waiting own b → Waiting own b0) := by
+    (b.rv = b0.rv → Waiting own b → Waiting own b0) ∧ (own ∈ b.fins ↔ own ∈ b0.fins) := by
   unfold step at hs
   split at hs
   · cases hs
@@ -233,30 +241,33 @@ theorem foreign_step_frame {own : String} {b0 b : State} {l : Label} (hl : l.isF
     simp only [stepEditFins] at hs
     split at hs
     · cases hs
-    · split at hs
-      · cases hs; exact ⟨rfl, rfl, Or.inl rfl, fun _ h => h⟩
-      · cases hs; refine ⟨rfl, rfl, Or.inr rfl, fun h _ => ?_⟩
+    · next hguard =>
+      split at hs
+      · cases hs; exact ⟨rfl, rfl, Or.inl rfl, fun _ h => h, Iff.rfl⟩
+      · cases hs
+        simp only [bne_iff_ne, ne_eq, Decidable.not_not, decide_eq_decide] at hguard
+        refine ⟨rfl, rfl, Or.inr rfl, fun h _ => ?_, hguard⟩
         simp at h
   | mark =>
     simp only [stepMark] at hs
     split at hs
-    · cases hs; exact ⟨rfl, rfl, Or.inl rfl, fun _ h => h⟩
+    · cases hs; exact ⟨rfl, rfl, Or.inl rfl, fun _ h => h, Iff.rfl⟩
     · split at hs
-      · cases hs; refine ⟨rfl, rfl, Or.inl rfl, fun _ h => ?_⟩
+      · cases hs; refine ⟨rfl, rfl, Or.inl rfl, fun _ h => ?_, Iff.rfl⟩
         obtain ⟨h1, _, _⟩ := h; simp at h1
-      · cases hs; refine ⟨rfl, rfl, Or.inr rfl, fun h _ => ?_⟩
+      · cases hs; refine ⟨rfl, rfl, Or.inr rfl, fun h _ => ?_, Iff.rfl⟩
         simp at h
-  | toggleDel => cases hs; refine ⟨rfl, rfl, Or.inr rfl, fun h _ => ?_⟩; simp at h
-  | toggleDmn => cases hs; refine ⟨rfl, rfl, Or.inr rfl, fun h _ => ?_⟩; simp at h
+  | toggleDel => cases hs; refine ⟨rfl, rfl, Or.inr rfl, fun h _ => ?_, Iff.rfl⟩; simp at h
+  | toggleDmn => cases hs; refine ⟨rfl, rfl, Or.inr rfl, fun h _ => ?_, Iff.rfl⟩; simp at h
   | handlerFinishes =>
     simp only at hs
     split at hs
-    · cases hs; exact ⟨rfl, rfl, Or.inl rfl, fun _ h => h⟩
+    · cases hs; exact ⟨rfl, rfl, Or.inl rfl, fun _ h => h, Iff.rfl⟩
     · cases hs
   | daemonExits o =>
     simp only at hs
     split at hs
-    · cases hs; exact ⟨rfl, rfl, Or.inl rfl, fun _ h => h⟩
+    · cases hs; exact ⟨rfl, rfl, Or.inl rfl, fun _ h => h, Iff.rfl⟩
     · cases hs
   | decide e => cases hl
   | mergePatch => cases hl
@@ -289,9 +300,9 @@ theorem lstep_foreign {own : String} {s s' : LState} {l : Label} (hl : l.isForei
 
 theorem linv_foreign {own : String} {s s' : LState} {l : Label} (h : LInv own s) (hl : l.isForeign = true)
     (hs : lstep own s (.base l) = some s') : LInv own s' := by
-  obtain ⟨hm, j1, j2, j3, j4, j5, j6⟩ := h
+  obtain ⟨hm, j1, j3, j4, j5, j6, j7⟩ := h
   obtain ⟨b, hb, rfl⟩ := lstep_foreign hl hs
-  obtain ⟨hp, hmem, hrv, hw⟩ := foreign_step_frame hl hb
+  obtain ⟨hp, hmem, hrv, hw, hfin⟩ := foreign_step_frame hl hb
   have hev : ∀ n, 1 ≤ n → 1 ≤ n + (if b.rv != s.base.rv then 1 else 0) := by intro n hn; omega
   have hbump : b.rv ≠ s.base.rv → 1 ≤ s.events + (if b.rv != s.base.rv then 1 else 0) := by
     intro hne; simp [hne]
@@ -304,23 +315,24 @@ theorem linv_foreign {own : String} {s s' : LState} {l : Label} (h : LInv own s)
       · exact Or.inl (hev _ h1)
       · exact Or.inr h1
     · exact Or.inl (hbump hr)
-  · intro p hpp; exact j2 p (hp ▸ hpp)
-  · intro p hpp hm' hc; exact hev _ (j3 p (hp ▸ hpp) hm' hc)
+  · intro p hpp hm' hc hcc; exact hev _ (j3 p (hp ▸ hpp) hm' hc hcc)
   · intro p hpp; exact j4 p (hp ▸ hpp)
-  · intro p hpp hc hne
+  · intro p hpp hm' hne
     show 1 ≤ s.events + _
     by_cases hr : b.rv = s.base.rv
-    · exact hev _ (j5 p (hp ▸ hpp) hc (by rw [← hr]; exact hne))
+    · exact hev _ (j5 p (hp ▸ hpp) hm' (by rw [← hr]; exact hne))
     · exact hbump hr
-  · intro p hpp hc hnil hd hwait
+  · intro p hpp hnil hd hwait
     show 1 ≤ s.events + _
     by_cases hr : b.rv = s.base.rv
-    · exact hev _ (j6 p (hp ▸ hpp) hc hnil hd (hw hr hwait))
+    · exact hev _ (j6 p (hp ▸ hpp) hnil hd (hw hr hwait))
     · exact hbump hr
+  · intro p hpp
+    exact (j7 p (hp ▸ hpp)).trans hfin.symm
 
 theorem linv_json {own : String} {s s' : LState} {f : Bool} (h : LInv own s) (hg : LGuard (.base (.jsonPatch f)))
     (hs : lstep own s (.base (.jsonPatch f)) = some s') : LInv own s' := by
-  obtain ⟨hm, j1, j2, j3, j4, j5, j6⟩ := h
+  obtain ⟨hm, j1, j3, j4, j5, j6, j7⟩ := h
   have hf : f = false := hg
   subst hf
   simp only [lstep] at hs
@@ -347,15 +359,17 @@ theorem linv_json {own : String} {s s' : LState} {f : Bool} (h : LInv own s) (hg
         constructor
         · rfl
         · intro _ hw
-          show 1 ≤ s.events ∨ sleepsAfter s.cycDelays s.cycMerge p.fns = true
-          cases hcm : s.cycMerge
-          · obtain ⟨_, h4b, h4a⟩ := j4 p hp hcm
-            by_cases hnil : p.fns = []
-            · cases hcd : s.cycDelays
-              · exact Or.inl (j6 p hp hcm hnil hcd hw)
-              · right; simp [sleepsAfter, hnil]
-            · exact absurd hnoop (fns_change own p.fns p.view h4b h4a hnil)
-          · exact Or.inl (j3 p hp hmerge hcm)
+          show 1 ≤ s.events ∨ sleepsAfter s.cycDelays (changedUnwritten s.cycMerge s.cycChanges p.fns) = true
+          obtain ⟨h4b, h4a⟩ := j4 p hp
+          by_cases hnil : p.fns = []
+          · cases hcd : s.cycDelays
+            · exact Or.inl (j6 p hp hnil hcd hw)
+            · cases hcm : s.cycMerge
+              · right; simp [sleepsAfter, changedUnwritten, hnil]
+              · cases hcc : s.cycChanges
+                · right; simp [sleepsAfter, changedUnwritten]
+                · exact Or.inl (j3 p hp hmerge hcm hcc)
+          · exact absurd hnoop (fns_change own p.fns p.view h4b h4a hnil)
         all_goals (intro p' hp'; simp at hp')
       · split at hb
         · -- rejected
@@ -369,9 +383,7 @@ theorem linv_json {own : String} {s s' : LState} {f : Bool} (h : LInv own s) (hg
           · intro _ _
             left
             show 1 ≤ s.events
-            cases hcm : s.cycMerge
-            · exact j5 p hp hcm hrej
-            · exact j3 p hp hmerge hcm
+            exact j5 p hp hmerge hrej
           all_goals (intro p' hp'; simp at hp')
         · -- accepted
           cases hb
@@ -384,14 +396,13 @@ theorem linv_json {own : String} {s s' : LState} {f : Bool} (h : LInv own s) (hg
           all_goals (intro p' hp'; simp at hp')
     · cases hb
 
-
 theorem linv_step {own : String} {s s' : LState} {l : LLabel} (h : LInv own s) (hg : LGuard l)
     (hs : lstep own s l = some s') : LInv own s' := by
   cases l with
   | touch => exact linv_touch h hs
   | base bl =>
     cases bl with
-    | decide e => exact linv_decide h hg hs
+    | decide e => exact linv_decide h hs
     | mergePatch => exact linv_merge h hs
     | jsonPatch f => exact linv_json h hg hs
     | restart => exact linv_restart h hs
